@@ -29,6 +29,7 @@ def main():
     if os.path.exists(notes):
         meta["agent_notes_excerpt"] = open(notes).read()[:8000]
     sh("git checkout -- . && git clean -fdq -e _out", wt)
+    meta["base"] = sh("git rev-parse --short HEAD", wt)[1].strip()
     rc, o = sh("git apply --check %s && git apply %s" % (diff, diff), wt)
     if rc != 0:
         meta["applies"] = False
